@@ -55,7 +55,7 @@ class ExprMixin:
             return v.n
         if isinstance(v, Ref):
             o = st.obj(v)
-            if isinstance(o, (HArr, HArr2, HListArr, HListTup, HStr, HListStr)):
+            if isinstance(o, (HArr, HArr2, HListArr, HListTup, HStr, HListStr, HListStruct)):
                 return o.n
             if isinstance(o, (HDict, HSet)):
                 return o.size
@@ -286,6 +286,16 @@ class ExprMixin:
             at, lt = self.as_z3_array(sub, elt), self.length_of(sub, elt)
             st.assume(qall([k], z3.Implies(rng, z3.And(z3.Select(a, k) == S(at), z3.Select(lens, k) == S(lt), z3.Select(lens, k) >= 0)), pats=[z3.Select(lens, k)]))
             return st.alloc(HListArr(kind, a, lens, n))
+        if isinstance(elt, Tup) and elt.names and all(isinstance(x, (Ref, View)) and self.is_arr1(sub, x) for x in elt.items):
+            kinds = [self.elem_kind(sub, x) for x in elt.items]
+            arrs = [fresh("compsa", z3.ArraySort(INT, arr_sort(kd))) for kd in kinds]
+            lens = [fresh("compsl", z3.ArraySort(INT, INT)) for _ in kinds]
+            eqs = []
+            for x, a, ln in zip(elt.items, arrs, lens):
+                eqs += [z3.Select(a, k) == S(self.as_z3_array(sub, x)), z3.Select(ln, k) == S(self.length_of(sub, x)), z3.Select(ln, k) >= 0]
+            st.assume(qall([k], z3.Implies(rng, z3.And(*eqs)), pats=[z3.Select(lens[0], k)]))
+            st.assume(n >= 0)
+            return st.alloc(HListStruct(elt.names, kinds, arrs, lens, n, elt.tname))
         if isinstance(elt, Tup) and all(isinstance(x, Sc) for x in elt.items):
             kinds = [x.kind for x in elt.items]
             cols = [fresh("compc", arr_sort(kd)) for kd in kinds]
@@ -689,6 +699,12 @@ class ExprMixin:
         return self.subscript(base, node.slice, node, st)
 
     def subscript(self, base, sl, node, st):
+        if isinstance(base, Fn) and getattr(base, "is_tuple", False):
+            self.eval_int(sl, st)  # a tuple of functions, all described by the same func_params entry; index range is the caller's precondition
+            return Fn(base.name, "param")
+        if isinstance(base, Opaque):
+            self.eval(sl, st)
+            return Opaque(base.tag)
         if isinstance(base, Tup):
             if isinstance(sl, ast.Slice):
                 lo, hi, step = self.slice_parts(sl, st)
@@ -729,6 +745,14 @@ class ExprMixin:
             if isinstance(o, HListTup):
                 idx = self.norm_index(st, node, self.eval_int(sl, st), o.n, "list index")
                 return Tup([Sc(k, z3.Select(c, idx)) for k, c in zip(o.kinds, o.cols)], o.names)
+            if isinstance(o, HListStruct):
+                idx = self.norm_index(st, node, self.eval_int(sl, st), o.n, "list index")
+                items = []
+                for kd, a, ln in zip(o.kinds, o.arrs, o.lens):
+                    e = HArr(kd, z3.Select(a, idx), z3.Select(ln, idx))
+                    st.assume(e.n >= 0)
+                    items.append(st.alloc(e))
+                return Tup(items, o.names, o.tname)
             if isinstance(o, HDict):
                 kv = self.eval(sl, st)
                 kt = self.key_term(st, o, kv, node)
